@@ -276,6 +276,8 @@ def _queries(D, G, cell):
         q[-1] = Da[j][-1]
         if not (np.abs(Da - q).max(axis=1) < 1e-12).any():
             qs.append(q)
+    # a query very close to (but not equal to) a descriptor
+    qs.append(Da[min(2, len(Da) - 1)] + 2.0 ** -12 * np.array([1.0, -1.0, 1.0, -1.0][:d]))
     span = (Da.max(axis=0) - Da.min(axis=0)).max() + 1.0
     if cell is None:
         qs += [Da.mean(axis=0) + 6 * span * np.ones(d), Ga[0] - 15 * span * np.eye(d)[0]]
@@ -317,6 +319,15 @@ def check(case):
         r.transitions += 1
         return _fit(Dx, wx, Gx, case["setting"], cell, used=bool(case.get("used")), int_grid=bool(case.get("int_grid")))
 
+    # a second LIVE estimator (the same problem translated by a constant), fitted BEFORE the judged one and scored
+    # after the judged fit: two estimators must not share anything
+    sib = None
+    if (n + len(G)) % 3 != 1:
+        try:
+            sib, _ = _fit(D + 0.5, case["w"], G + 0.5, case["setting"], cell)
+            r.transitions += 1
+        except Exception:
+            sib = None
     try:
         m, rec = fit(D, case["w"], G)
     except Exception as e:
@@ -384,6 +395,11 @@ def check(case):
         gw2 = getattr(m, "_sample_weights", None)
         if gw is not None and gw2 is not None and np.abs(np.asarray(gw2, float) - W).max() > 1e-12:
             return r.fail("sample-changes-the-grid-weights", "%s" % np.asarray(gw2).tolist())
+    if sib is not None:
+        try:
+            sib.score_samples(Q + 0.5)
+        except Exception:
+            pass
     try:
         got = np.asarray(m.score_samples(Q.copy()), float)
         tot = float(m.score(Q.copy()))
